@@ -1186,16 +1186,6 @@ def join(
         right >>= rename({col: col.name + user_suffix for col in right})
 
     elif right_names & left_names:
-        cnt = 0
-        for name in right_names:
-            suffixed = name + suffix + (f"_{cnt}" if cnt > 0 else "")
-            while suffixed in left_names:
-                cnt += 1
-                suffixed = name + suffix + f"_{cnt}"
-
-        if cnt > 0:
-            suffix += f"_{cnt}"
-
         on_uuids = set(
             col._uuid for col in itertools.chain(*(pred.iter_subtree_preorder() for pred in on)) if isinstance(col, Col)
         )
@@ -1204,10 +1194,20 @@ def join(
         if not (right_names - right_on_names) & left_names:
             # If nothing except join columns clashes, we only rename the clashing
             # columns on the right.
-            right >>= rename({col: col.name + suffix for col in right if col.name in left_names})
-
+            renamed = right_names & left_names
         else:
-            right >>= rename({col: col.name + suffix for col in right})
+            renamed = right_names
+
+        # Append the smallest integer for which no renamed column collides with a left
+        # column or with a right column that keeps its name.
+        taken = left_names | (right_names - renamed)
+        cnt = 0
+        while any(name + suffix + (f"_{cnt}" if cnt > 0 else "") in taken for name in renamed):
+            cnt += 1
+        if cnt > 0:
+            suffix += f"_{cnt}"
+
+        right >>= rename({col: col.name + suffix for col in right if col.name in renamed})
 
     if len(on) == 0:
         on = LiteralCol(True)
